@@ -23,6 +23,8 @@ fn eval_expr(
     node: dom::XmlNode,
     context: &mut model::Context,
 ) -> error::Result<model::Value> {
+    #[cfg(xml_rs_verif)]
+    nom::verif::tick();
     eval_or_expr(expr, node, context)
 }
 
@@ -342,6 +344,8 @@ fn eval_step_expr(
     node: dom::XmlNode,
     context: &mut model::Context,
 ) -> error::Result<Vec<dom::XmlNode>> {
+    #[cfg(xml_rs_verif)]
+    nom::verif::tick();
     match step {
         expr::Step::Current => Ok(vec![node]),
         expr::Step::Parent => match node {
@@ -463,6 +467,8 @@ fn eval_predicate(
     node: dom::XmlNode,
     context: &mut model::Context,
 ) -> error::Result<bool> {
+    #[cfg(xml_rs_verif)]
+    nom::verif::tick();
     let value = eval_expr(predicate, node, context)?;
     match value {
         model::Value::Number(v) => Ok(v as usize == context.get_position()),
@@ -502,6 +508,8 @@ fn ancestor(node: dom::XmlNode) -> Vec<dom::XmlNode> {
 
     let mut parent = node.parent_node();
     while let Some(p) = parent {
+        #[cfg(xml_rs_verif)]
+        nom::verif::tick();
         nodes.push(p.clone());
         parent = p.parent_node();
     }
@@ -538,6 +546,8 @@ fn child(node: dom::XmlNode) -> Vec<dom::XmlNode> {
 }
 
 fn descendant(node: dom::XmlNode) -> Vec<dom::XmlNode> {
+    #[cfg(xml_rs_verif)]
+    nom::verif::tick();
     let mut nodes = vec![];
 
     for child in node.child_nodes().iter() {
@@ -571,6 +581,8 @@ fn following_sibling(node: dom::XmlNode) -> Vec<dom::XmlNode> {
 
     let mut next = node.next_sibling();
     while let Some(n) = next {
+        #[cfg(xml_rs_verif)]
+        nom::verif::tick();
         nodes.push(n.clone());
         next = n.next_sibling();
     }
@@ -607,6 +619,8 @@ fn preceding_sibling(node: dom::XmlNode) -> Vec<dom::XmlNode> {
 
     let mut prev = node.previous_sibling();
     while let Some(p) = prev {
+        #[cfg(xml_rs_verif)]
+        nom::verif::tick();
         nodes.push(p.clone());
         prev = p.previous_sibling();
     }
